@@ -20,6 +20,8 @@ CONSTANTS
   CutAtGE = FALSE
   SendsGraft = TRUE
   BubbleToD = TRUE
+  FreshBackoff = TRUE
+  DownCleansFanout = TRUE
   JoinFilterDirect = TRUE
   GraftNeedsStream = FALSE
   AllowDirectInFanout = TRUE
